@@ -651,6 +651,27 @@ void scen_loader(Ctx &x) {
     p_library_loader_free(l);
   }
 }
+// a shared object that this process has not loaded yet: a dlopen reference that is not given back keeps it mapped (visible in
+// /proc/self/maps), unlike libm, which the harness itself is linked against
+static bool so_mapped(const string &path) {
+  FILE *f = fopen("/proc/self/maps", "r"); if (!f) return false; char line[1024]; bool hit = false; string base = path.substr(path.rfind('/') + 1);
+  while (fgets(line, sizeof line, f)) if (strstr(line, base.c_str())) { hit = true; break; }
+  fclose(f); return hit;
+}
+static string unloaded_so() {
+  for (const char *c : {"/lib/x86_64-linux-gnu/libBrokenLocale.so.1", "/lib/x86_64-linux-gnu/libanl.so.1", "/lib/x86_64-linux-gnu/libutil.so.1", "/lib/x86_64-linux-gnu/libthread_db.so.1", "/lib/x86_64-linux-gnu/libnss_hesiod.so.2"})
+    if (access(c, R_OK) == 0 && !so_mapped(c)) return c;
+  return "";
+}
+void scen_loader_mapping(Ctx &x) {
+  string lib = unloaded_so();
+  if (lib.empty()) return;
+  x.W0();
+  PLibraryLoader *l = p_library_loader_new(lib.c_str());
+  x.W1();
+  if (l) p_library_loader_free(l);
+  x.ok(!so_mapped(lib), "mapping-left", string("after p_library_loader_new (") + (l ? "succeeded, then freed" : "failed") + ") the shared object " + lib + " is still mapped into the process: the reference obtained from the system loader during the call was not given back");
+}
 void scen_libsys_cycle(Ctx &x) {
   PMemVTable t; t.f_malloc = va::v_malloc; t.f_realloc = va::v_realloc; t.f_free = va::v_free;
   p_libsys_shutdown();
@@ -736,7 +757,7 @@ const Scen SCENS[] = {
     {"rwlock", scen_rwlock, ""}, {"semaphore", scen_semaphore, ""}, {"shm", scen_shm, ""}, {"shmbuffer", scen_shmbuffer, ""},
     {"socket", scen_socket, ""}, {"udp_receive_from", scen_udp_receive_from, ""}, {"sockaddr", scen_sockaddr, ""}, {"strings", scen_strings, ""},
     {"thread_create", scen_thread_create, ""}, {"thread_local", scen_thread_local, ""}, {"thread_foreign", scen_thread_foreign, ""},
-    {"loader", scen_loader, ""}, {"libsys_cycle", scen_libsys_cycle, ""},
+    {"loader", scen_loader, ""}, {"loader_mapping", scen_loader_mapping, ""}, {"libsys_cycle", scen_libsys_cycle, ""},
 };
 const int NSCEN = sizeof SCENS / sizeof SCENS[0];
 int g_gen_seed = 0;
